@@ -346,7 +346,7 @@ fn format(opt: opt::Opt) -> Result<i32> {
         walker_builder.add_ignore(ignore_path);
     }
 
-    let use_default_glob = match opt.glob {
+    let (use_default_glob, glob_overrides) = match opt.glob {
         Some(ref globs) => {
             // Build overriders with any patterns given
             let mut overrides = OverrideBuilder::new(cwd);
@@ -354,11 +354,11 @@ fn format(opt: opt::Opt) -> Result<i32> {
                 overrides.add(pattern)?;
             }
             let overrides = overrides.build()?;
-            walker_builder.overrides(overrides);
+            walker_builder.overrides(overrides.clone());
             // We shouldn't use the default glob anymore
-            false
+            (false, Some(overrides))
         }
-        None => true,
+        None => (true, None),
     };
 
     debug!("creating a pool with {} threads", opt.num_threads);
@@ -522,6 +522,21 @@ fn format(opt: opt::Opt) -> Result<i32> {
                                 };
                             }
                             if !DEFAULT_GLOB.is_match(&path) {
+                                continue;
+                            }
+                        }
+
+                        // The walker never applies the given globs to a path passed directly, so
+                        // with `--respect-ignores` an explicit file path is matched against them here
+                        if let Some(overrides) = &glob_overrides {
+                            if opt.respect_ignores
+                                && is_explicitly_provided(opt.as_ref(), &path)
+                                && (overrides.matched(&path, false).is_ignore()
+                                    || path.ancestors().skip(1).any(|dir| {
+                                        !dir.as_os_str().is_empty()
+                                            && overrides.matched(dir, true).is_ignore()
+                                    }))
+                            {
                                 continue;
                             }
                         }
